@@ -12,7 +12,10 @@ fn main() {
         std::process::exit(2);
     }
     lqverif::mon::install();
-    lqverif::exec::limit_memory(8);
+    if std::env::var_os("LQVERIF_NO_RLIMIT").is_none() && !cfg!(miri) {
+        // (sanitizer runtimes and Miri need an unrestricted address space)
+        lqverif::exec::limit_memory(8);
+    }
     if let Some(path) = arg(&args, "--replay") {
         let text = std::fs::read_to_string(&path).expect("read replay file");
         let j: serde_json::Value = serde_json::from_str(&text).expect("replay json");
